@@ -356,14 +356,17 @@ fn store_mode(o: &Opts) {
             let done: Rc<RefCell<Vec<String>>> = Rc::new(RefCell::new(vec![]));
             let mut tasks: Vec<(usize, tokio::task::JoinHandle<()>)> = vec![];
             let mut cmds = vec![]; let mut outs = vec![];
+            let mut bursted = false;
             for id in 0..ncmd {
                 let key = rng.gen_range(0, nkeys); let kb = vec![key as u8, 7, 7];
                 let h = rng.gen_range(0, handles.len());
                 let x: f64 = rng.gen();
-                if k % 4 == 2 && rng.gen_bool(0.08) {
+                if k % 4 == 2 && !bursted && rng.gen_bool(0.12) {
+                    bursted = true;
                     // a burst: more writes than the command channel holds (100), issued back to back through one handle, the reader right behind
                     // (on a key of its own, so that no waiter is woken in the middle of the burst: one observation entry per command)
-                    let n = rng.gen_range(101, 140u64);
+                    // (more than twice the capacity: writes that could not be queued at once must not be overtaken by what is issued after them)
+                    let n = rng.gen_range(205, 290u64);
                     let key = nkeys; let kb = vec![key as u8, 7, 7];
                     for j in 0..n { let v = (j % 200) as u64; handles[h].write(kb.clone(), vec![v as u8]).await; cmds.push(format!("Write {} {}", key, v)); outs.push(coq_list(&Vec::<String>::new())); }
                     let r = handles[h].read(kb).await.unwrap(); cmds.push(format!("Read {} {}", key, id));
